@@ -109,6 +109,7 @@ func c10Isolation(c *Chooser, env *Env, defective, faults bool) *Outcome {
 	if multi.K.MaxRunnable >= 2 {
 		o.probe("runs_with_concurrent_file_tasks", 1)
 	}
+	o.Digest = DigestOf(multi.Stdout, multi.Errs, multi.Fatal != "")
 	if v := runFailure("C10", multi.K); v != nil {
 		o.V = v
 		return o
